@@ -1,5 +1,7 @@
 import IsoVerif.Driver.Core
 import IsoVerif.Model.C09
+import IsoVerif.Model.C09Labels
+import IsoVerif.Model.C09Tpm
 
 namespace IsoVerif.Driver.C09
 open Lean IsoVerif.Driver IsoVerif.Gen IsoVerif.Model.C09
@@ -133,7 +135,82 @@ def profileOp : Handler := fun j => do
       ("ids", ofList (fun p => Json.arr #[ofStr p.1, ofNat p.2]) c.ids),
       ("lines", ofList (fun t => Json.arr #[ofStr t.1, ofStr t.2.1, ofRat t.2.2.1, ofRat t.2.2.2]) (pDump c))])
 
-def ops : List (String × Handler) := [
+
+/-! ### growth: file labels, grouped TPM values, table splitting variant -/
+
+def ofInErr (e : InErr) : Json := Json.mkObj [("error", Json.str "error"), ("exc", Json.str e.name)]
+
+def ofDict (d : List (String × String)) : Json := ofList (fun p => Json.arr #[ofStr p.1, ofStr p.2]) d
+
+def ofParsedSamples (r : Option (List IsoVerif.Model.C10.ParsedSample)) : Json :=
+  match r with
+  | none => jErr "exit"
+  | some l => ofList (fun s => Json.mkObj [("name", ofStr s.name), ("libs", ofList (ofList ofStr) s.libs),
+      ("readable", ofDict s.readable)]) l
+
+def ofListLine : IsoVerif.Model.C10.ListLine → Json
+  | .header n => Json.mkObj [("header", ofStr n)]
+  | .files fs l => Json.mkObj [("files", ofList (fun f => Json.arr #[ofStr f.path, ofStr f.stem]) fs), ("label", ofOpt ofStr l)]
+
+/-- a YAML entry whose labels are arbitrary scalars: the model of C10 is used when they are all strings -/
+def jYEntry (j : Json) : Except String (Option String × Option (List String) × Option (List TagVal)) := do
+  pure (← jOpt jStr (← arg j "name"), ← jOpt (jList jStr) (← arg j "files"), ← jOpt (jList jTagVal) (← arg j "labels"))
+
+def growthOps : List (String × Handler) := [
+  ("stem", fun j => do
+      let p ← jStr (← arg j "p")
+      pure (Json.mkObj [("base", ofStr (String.ofList (pyBasename p.toList))), ("stem", ofStr (fileStem p))])),
+  ("split_ws", fun j => do
+      let s ← jStr (← arg j "s")
+      pure (ofList (fun p => ofStr (String.ofList p)) (pySplitWs s.toList))),
+  ("parse_list_line", fun j => do
+      let l ← jStr (← arg j "l")
+      pure (ofListLine (parseListLine l.toList))),
+  ("labels_cmd", fun j => do
+      let files ← jList jStr (← arg j "files")
+      let labels ← jOpt (jList jStr) (← arg j "labels")
+      pure (match readableNamesCmd files labels with
+        | .error e => ofInErr e
+        | .ok d => ofDict d)),
+  ("labels_list", fun j => do
+      let pfx ← jStr (← arg j "prefix")
+      let lines ← jList jStr (← arg j "lines")
+      pure (ofParsedSamples (IsoVerif.Model.C10.parseList pfx (lines.map (fun l => parseListLine l.toList))))),
+  ("labels_yaml", fun j => do
+      let pfx ← jStr (← arg j "prefix")
+      let es ← jList jYEntry (← arg j "entries")
+      -- entries whose labels are all strings go through C10's parser; a non-string label is reported per entry
+      let conv := es.map (fun e =>
+        let labs := match e.2.2 with
+          | none => some none
+          | some ls => (yamlLabelsStr ls).map some
+        labs.map (fun l => (⟨e.1, e.2.1.map (fun fs => fs.map mkInFile), l, none⟩ : IsoVerif.Model.C10.YamlEntry)))
+      if conv.all Option.isSome then
+        pure (ofParsedSamples (IsoVerif.Model.C10.parseYaml pfx (conv.filterMap id)))
+      else pure (Json.mkObj [("non_string_label", ofBool true)])),
+  ("file_mode", fun j => do
+      let d ← jList jStrPair (← arg j "dict")
+      let libs ← jList (jList jStr) (← arg j "libs")
+      let alns ← jList jAln (← arg j "alns")
+      match fileNameGrouperInit d libs with
+      | .error e => pure (ofInErr e)
+      | .ok names =>
+        pure (Json.mkObj [("names", ofDict names),
+          ("run", ofExcept (fun r => Json.mkObj [("rets", ofList ofGRes r.1), ("groups", sortedStrs r.2)])
+            (runGrouper (.fileName names) alns []))])),
+  ("grouped_tpm", fun j => do
+      let rows ← jList (jPair jStr (jList jInt)) (← arg j "rows")
+      let un ← jBool (← arg j "usable_norm")
+      let rt ← jNat (← arg j "reads_for_tpm")
+      pure (ofExcept (ofList (fun r => Json.arr #[ofStr r.1, ofList ofRat r.2])) (groupedTpm un rt rows))),
+  ("split_table_global", fun j => do
+      let m ← jList jStrPair (← arg j "map")
+      let chr ← jStr (← arg j "chr")
+      let alns ← jList (jPair jStr (jOpt jStr)) (← arg j "alns")
+      pure (ofList (fun l => ofStr (String.ofList l)) (splitTableLinesGlobal m chr alns [])))
+]
+
+def ops : List (String × Handler) := growthOps ++ [
   ("split", fun j => do
       let d ← jStr (← arg j "d")
       let s ← jStr (← arg j "s")
